@@ -173,8 +173,9 @@ def gen_poly(rng, focus, ncaps, k):
             'str': C.dyadic(rng, 0, 4, 6)}
 
 
-def gen_window_job(rng, allcaps, onecap):
-    npoly = rng.randint(1, 5)
+def gen_window_job(rng, allcaps, onecap, empty=False, nopoly=False):
+    """empty: one polygon of the list has no caps (whole sky); nopoly: the list itself is empty"""
+    npoly = 0 if nopoly else rng.randint(1, 5)
     foci = [rand_unit(rng) for _ in range(rng.randint(1, 2))]
     polys = []
     for k in range(npoly):
@@ -194,16 +195,20 @@ def gen_window_job(rng, allcaps, onecap):
                 u |= rng.getrandbits(3) << n       # stray bits above ncaps must be ignored
             p['use_caps'] = u
         polys.append(p)
+    if empty:
+        polys.insert(rng.randint(0, len(polys)), {'x': [], 'cm': [], 'use_caps': 0, 'id': -1, 'pixel': -1, 'weight': 1.0,
+                                                   'str': 4.0 * math.pi})
+        npoly += 1
     pts, kinds = [], []
 
     def add(p, kind):
         pts.append(p)
         kinds.append(kind)
-    for _ in range(8):
+    for _ in range(6):
         add(rand_unit(rng), 'random')
     for f in foci:
         add(f, 'focus')
-        for _ in range(7):
+        for _ in range(6):
             add(near(rng, f, rng.choice([0.05, 0.3, 1.0])), 'near-focus')
     allc = [(x, cm) for p in polys for x, cm in zip(p['x'], p['cm'])]
     for x, cm in allc:
@@ -218,18 +223,25 @@ def gen_window_job(rng, allcaps, onecap):
     keep = [i for i, p in enumerate(pts) if all(margin_ok(x, cm, p) for x, cm in allc)]
     pts = [pts[i] for i in keep]
     kinds = [kinds[i] for i in keep]
-    routes = ['kwargs', 'copy', 'fits_raw', 'fits_conv']
-    routes += ['kwargs_default', 'ply', 'balkans'] if allcaps else ['ply_assign']
-    if onecap:
-        routes += ['fits1_raw', 'fits1_conv']
+    if nopoly:
+        routes = ['kwargs']
+    elif empty:
+        # no copy()/add_caps() (they need cap arrays) and no .ply (its reader asserts >= 1 cap per polygon)
+        routes = ['kwargs', 'fits_raw', 'fits_conv'] + (['kwargs_default', 'balkans'] if allcaps else [])
+    else:
+        routes = ['kwargs', 'copy', 'add_caps', 'fits_raw', 'fits_conv']
+        routes += ['kwargs_default', 'ply', 'balkans'] if allcaps else ['ply_assign']
+        if onecap:
+            routes += ['fits1_raw', 'fits1_conv']
     pad = []
     for _ in range(6):
         x, cm = cap_around(rng, rng.choice(foci))
         pad.append({'x': x, 'cm': -abs(cm) if rng.random() < 0.5 else cm})
-    job = {'f': 'window', 'polys': polys, 'pad': pad, 'ncaps': 0 if rng.random() < 0.65 else rng.randint(1, 7),
+    t = rng.random()
+    job = {'f': 'window', 'polys': polys, 'pad': pad, 'ncaps': 0 if t < 0.6 else (-rng.randint(1, 3) if t < 0.65 else rng.randint(1, 7)),
            'pts': pts, 'radec': [radec_of(p) for p in pts], 'routes': routes, 'inpoly': True,
            'kinds': kinds, 'allcaps': allcaps, 'onecap': onecap}
-    if allcaps:
+    if allcaps and not nopoly:
         # cap table with filler rows and the polygons' runs in shuffled order
         order = list(range(npoly))
         rng.shuffle(order)
@@ -270,6 +282,25 @@ def gen_cap_job(rng):
     return {'f': 'cap', 'x': x, 'cm': cm, 'pts': pts, 'radec': [radec_of(p) for p in pts], 'kinds': kinds}
 
 
+def gen_sweep_job(rng, n):
+    """One polygon with n caps around a focus: every use-mask x every ncaps in -1..n+1."""
+    f = rand_unit(rng)
+    p = gen_poly(rng, f, n, 0)
+    pts, kinds = [f], ['focus']
+    for _ in range(5):
+        pts.append(near(rng, f, rng.choice([0.05, 0.3, 1.0])))
+        kinds.append('near-focus')
+    for _ in range(3):
+        pts.append(rand_unit(rng))
+        kinds.append('random')
+    for x in p['x']:
+        pts.append(list(x))
+        kinds.append('centre')
+    keep = [i for i, pt in enumerate(pts) if all(margin_ok(x, cm, pt) for x, cm in zip(p['x'], p['cm']))]
+    return {'f': 'sweep', 'x': p['x'], 'cm': p['cm'], 'pts': [pts[i] for i in keep], 'kinds': [kinds[i] for i in keep],
+            'masks': list(range(1 << n)), 'ncaps_list': list(range(-1, n + 2))}
+
+
 # ---------------------------------------------------------------- set_use_caps jobs
 
 def gen_setuse_job(rng):
@@ -300,7 +331,7 @@ def gen_setuse_job(rng):
         xs.append(x)
         cms.append(float(cm))
     t = rng.random()
-    if t < 0.3:
+    if t < 0.2:
         il, ilk = list(range(n)), 'identity'
     elif t < 0.5:
         il, ilk = rng.sample(range(n), n), 'permutation'
@@ -391,11 +422,14 @@ def correspond(ctx, proof_ok=True):
         raise RuntimeError('C12/Model.v does not build:\n' + log[-2000:])
     rng = ctx.rng
     jobs = []
-    for k in range(ctx.n(26, 500)):
-        jobs.append(gen_window_job(rng, allcaps=(k % 5 in (0, 1)), onecap=(k % 10 in (0, 7))))
-    for _ in range(ctx.n(120, 3000)):
+    for k in range(ctx.n(22, 300)):
+        jobs.append(gen_window_job(rng, allcaps=(k % 5 in (0, 1)), onecap=(k % 10 in (0, 7)), empty=(k % 11 in (3, 5))))
+    jobs.append(gen_window_job(rng, allcaps=False, onecap=False, nopoly=True))
+    for k in range(ctx.n(2, 12)):
+        jobs.append(gen_sweep_job(rng, 3 if k % 2 == 0 else (2 if not ctx.thorough else 4)))
+    for _ in range(ctx.n(100, 2000)):
         jobs.append(gen_cap_job(rng))
-    for _ in range(ctx.n(240, 5000)):
+    for _ in range(ctx.n(200, 3000)):
         jobs.append(gen_setuse_job(rng))
     nb = C.NPROC
     batches = [jobs[i::nb] for i in range(nb)]
@@ -430,6 +464,17 @@ def correspond(ctx, proof_ok=True):
                 terms.append((ji, {'what': 'is_in_cap', 'mode': mode, 'keep': keep, 'pts': pts},
                               '(CCap %s %s %s)' % (cap_t(j['x'], j['cm']), C.coq_list([vec_t(pts[i]) for i in keep]), exp_t)))
                 count('is_in_cap:%s:cm%s' % (mode, '>=0' if j['cm'] >= 0 else '<0'), len(keep))
+        elif j['f'] == 'sweep':
+            keep = list(range(len(j['pts'])))
+            for mi, mask in enumerate(j['masks']):
+                P = {'x': j['x'], 'cm': j['cm'], 'use_caps': mask}
+                for ni, nc in enumerate(j['ncaps_list']):
+                    row = r['sweep'][mi][ni]
+                    exp_t = '[]' if isinstance(row, dict) else boolist(row)
+                    terms.append((ji, {'what': 'is_in_polygon', 'mode': 'cart', 'keep': keep, 'pts': j['pts'], 'routes': ['kwargs'],
+                                       'poly': 0, 'sweep': (mi, ni)},
+                                  '(CPoly %s %s %s [%s])' % (poly_t(P), C.zlit(nc), C.coq_list([vec_t(pt) for pt in j['pts']]), exp_t)))
+                    count('is_in_polygon:mask-x-ncaps-sweep', len(keep))
         elif j['f'] == 'setuse':
             p = j['poly']
             width = max([len(p['cm']), p['use_caps'].bit_length()] + [i + 1 for i in j['index_list']]) + 2
@@ -440,7 +485,11 @@ def correspond(ctx, proof_ok=True):
                                'set_use_caps returned %d but left polygon.use_caps = %d' % (r['ok'], r['after']), {}, True))
             terms.append((ji, {'what': 'set_use_caps'}, '(CSetUse %s %s %s %d%%nat %s)' % (
                 poly_t(P), zlist(j['index_list']), opts_t(j['opts']), width, exp)))
-            count('set_use_caps:%s:%s:%s' % (j['ilk'], '+'.join(j['dupkinds']) or 'nodup', 'ok' if 'ok' in r else r['err']))
+            count('set_use_caps:index_list=%s:%s' % (j['ilk'], 'ok' if 'ok' in r else r['err']))
+            for dk in (j['dupkinds'] or ['none']):
+                count('set_use_caps:doubles=%s' % dk)
+            for ok_ in sorted(j['opts']):
+                count('set_use_caps:option=%s' % ok_)
         elif j['f'] == 'window':
             routes = j['routes']
             intended = j['polys']
@@ -464,10 +513,10 @@ def correspond(ctx, proof_ok=True):
                 terms.append((ji, {'what': 'is_in_window', 'mode': mode, 'keep': keep, 'pts': pts, 'routes': routes},
                               '(CWindow %s %s %s %s)' % (C.coq_list([poly_t(p) for p in intended]), C.zlit(j['ncaps']),
                                                          C.coq_list([vec_t(pts[i]) for i in keep]), C.coq_list(expects))))
-                count('is_in_window:%s:ncaps%s' % (mode, '=0' if j['ncaps'] == 0 else '>0'), len(keep) * len(routes))
+                count('is_in_window:%s:ncaps%s%s' % (mode, '<=0' if j['ncaps'] <= 0 else '>0', ':with-whole-sky-polygon' if any(len(p['cm']) == 0 for p in intended) else ''), len(keep) * len(routes))
             # is_in_polygon, polygon by polygon, on two routes (ManglePolygon objects and raw FITS rows)
             pts = j['pts']
-            prts = [rt for rt in ('kwargs', 'fits_raw') if 'err' not in r['routes'][rt]]
+            prts = [rt for rt in ('kwargs', 'fits_raw') if rt in routes and 'err' not in r['routes'][rt]]
             for k, p in enumerate(intended):
                 keep = [i for i, pt in enumerate(pts) if all(margin_ok(x, cm, pt) for x, cm in zip(p['x'], p['cm']))]
                 expects = []
@@ -620,6 +669,19 @@ def correspond(ctx, proof_ok=True):
             polys_here = [{'x': [j['x']], 'cm': [j['cm']]}]
             exp = r[info['mode']]
             raised = isinstance(exp, dict)
+        elif 'sweep' in info:
+            mi, ni = info['sweep']
+            exp = r['sweep'][mi][ni]
+            raised = isinstance(exp, dict)
+            sig = 'C12:is_in_polygon:mask-x-ncaps-sweep:%s:%s' % ('impl=' + exp['err'] if raised else 'point=' + kind,
+                                                                 'property' if found else 'model')
+            if not raised and pt is not None and nan_cause(r, 'cart', keep[pi]):
+                sig = SIG_NAN
+            rep.update({'job': dict({k: j[k] for k in ('f', 'x', 'cm', 'pts')}, masks=[j['masks'][mi]], ncaps_list=[j['ncaps_list'][ni]]),
+                        'impl_result': exp, 'point': pt, 'point_kind': kind, 'coq_case': t})
+            report(sig, 'is_in_polygon(use_caps=%d, ncaps=%d) differs from the caps\' definition at point %s (%s)' % (
+                j['masks'][mi], j['ncaps_list'][ni], pt, kind), rep, found)
+            continue
         else:
             polys_here = j['polys'] if what == 'is_in_window' else [j['polys'][info['poly']]]
             rr = r['routes'].get(route, {}) if route else {}
@@ -643,7 +705,8 @@ def correspond(ctx, proof_ok=True):
                 what, pt, kind, route, info['mode'])
         rep.update({'point': pt, 'point_kind': kind, 'route': route, 'input': info['mode'], 'coq_case': t[:20000]})
         if what == 'is_in_cap':
-            rep.update({'job': {k: j[k] for k in ('f', 'x', 'cm')}, 'impl_result': exp})
+            rep.update({'job': {k: j[k] for k in ('f', 'x', 'cm')},
+                        'impl_result': exp[keep[pi]] if (isinstance(exp, list) and pt is not None) else exp})
             rep['job']['pts'] = [pt] if pt is not None else j['pts']
             rep['job']['radec'] = [radec_of(pt)] if pt is not None else j['radec']
         else:
